@@ -40,7 +40,8 @@ def value_alphabet():
         ('datetime-named-zone', 'datetime', dt(2020, 6, 2, 3, 4, 5, tzinfo=datetime.timezone(datetime.timedelta(hours=-6), 'CST'))),
         ('datetime-named-zone', 'datetime', dt(2020, 6, 2, 3, 4, 5, tzinfo=datetime.timezone(datetime.timedelta(hours=8), 'CST'))),
         ('duration', 'duration', datetime.timedelta(days=1, seconds=3)), ('duration', 'duration', datetime.timedelta(days=-2)),
-        ('duration', 'duration', datetime.timedelta(seconds=1.5)), ('duration', 'duration', isodate.Duration(years=1, months=2)),
+        ('duration', 'duration', datetime.timedelta(seconds=1.5)), ('duration', 'duration', datetime.timedelta(microseconds=7)),
+        ('duration', 'duration', datetime.timedelta(days=150000, microseconds=1)), ('duration', 'duration', isodate.Duration(years=1, months=2)),
         ('set', 'any', {1, 2}), ('set', 'any', set()),
         ('array', 'array', [1, [2, {'k': D('1.5')}], datetime.date(2020, 1, 1)]), ('array', 'array', []),
         ('object', 'object', {'a': {'b': [datetime.time(1, 2, 3), None]}, 'é': ' '}),
